@@ -11,7 +11,7 @@ esac
 case "$RES" in *"demo changed exit=0"*) echo "$ID demo does not fail with change"; exit 1;; esac
 D=/verif/seeded/$ID
 mkdir -p $D
-cp $WT/_out/change$N.diff $D/patch.diff
+cp /tmp/agents/PORT/rebased.diff $D/patch.diff
 cp $WT/_out/demo$N.py $D/demo.py
 FIRED=$(/venv/bin/python /verif/tools/try_patch.py $D/patch.diff | tail -1)
 OWN=$(/venv/bin/python /verif/tools/try_patch.py $D/patch.diff $P | tail -1)
@@ -22,7 +22,7 @@ json.dump({
  'id': i, 'breaks_property': p, 'needs_to_manifest': needs,
  'origin': 'independent sub-agent given only the property text and a scratch worktree',
  'confirmed_by_me': {
-   'commands': ['tools/confirm_seed.sh /tmp/agents/%s <n>: demo on clean tree, demo with patch, unedited suite with patch (pytest -n 6, database tests deselected)' % p],
+   'commands': ['tools/confirm_seed.sh /tmp/agents/%s <n>: on a scratch worktree at the head of /repo: demo on the clean tree, demo with the patch, unedited suite with the patch (pytest -n 6, database tests deselected); patch.diff is the change as a diff against that head' % p],
    'result': res},
  'checks': {'all_properties': fired, 'own_property_check': own},
 }, open('/verif/seeded/%s/meta.json' % i, 'w'), indent=1)
